@@ -319,7 +319,7 @@ Qed.
 Theorem respan_std_user err call cs sp :
   call = Some cs -> sp_src cs <> std_source_id -> respan_std err call = Some sp -> sp_src sp <> std_source_id.
 Proof.
-  intros -> Hc. unfold respan_std. destruct err as [e|].
+  intros -> Hc. unfold respan_std, respan_moves. destruct err as [e|].
   - destruct (Nat.eqb_spec (sp_src e) std_source_id) as [E|E]; destruct (Nat.eqb_spec (sp_src cs) std_source_id); cbn [negb andb]; try lia;
       intro H; injection H as <-; assumption.
   - cbn [andb]. discriminate.
@@ -329,7 +329,7 @@ Qed.
 Theorem respan_std_keeps err call :
   (forall e, err = Some e -> sp_src e <> std_source_id) -> respan_std err call = err.
 Proof.
-  intro H. unfold respan_std. destruct err as [e|]; [|reflexivity].
+  intro H. unfold respan_std, respan_moves. destruct err as [e|]; [|reflexivity].
   specialize (H e eq_refl). destruct (Nat.eqb_spec (sp_src e) std_source_id); [contradiction | reflexivity].
 Qed.
 
